@@ -1293,7 +1293,7 @@ func init() {
 		Assume: []string{"known finding D19: update --all / format --all are not atomic — targets of assembly files preceding the faulty one (format: any other file) are already rewritten when the run fails"}}
 	properties["C08"] = &Property{ID: "C08", LeanMods: []string{"CrsProps.C08", "CrsProps.C12Cli"}, Corr: "K10 (tree after --all vs tree after the single invocations in a random order; compare verdict lines)", Workers: 8,
 		Rule: treeRule + "update/format/compare --all against the sequence of single invocations in 2 (quick) / 6 (thorough) random orders; assembly files share stored names and definition names; non-trivial = trees with at least two assembly files; distinct by (tree, command, order)", Gen: genC08}
-	properties["C18"] = &Property{ID: "C18", LeanMods: []string{"CrsProps.C18"}, Corr: "K9 (parseRuleId vs Crs.Update.parseRuleId), K10 (generate ARG vs generate -, nested roots)", Workers: 8,
+	properties["C18"] = &Property{ID: "C18", LeanMods: []string{"CrsProps.C18", "CrsProps.CliRun"}, Corr: "K9 (parseRuleId vs Crs.Update.parseRuleId), K10 (generate ARG vs generate -, nested roots)", Workers: 8,
 		Rule: "argument strings around the grammar NNNNNN[-chainK][.ra] (other digit counts, K in 0..300 and beyond uint8/uint64, extra suffixes, leading zeros, non-ASCII digits); trees with files for accepted and rejected spellings; nested CRS roots with start directories at depth 0..4 below or beside a root, absolute and relative -d, and no -d; non-trivial = every case; distinct by argument / start directory", Gen: genC18,
 		Assume: []string{"the root search never tests `/` itself (noted limit of findRootDirectory)"}}
 	properties["C17"] = &Property{ID: "C17", LeanMods: []string{"CrsProps.C17"}, Corr: "K2, K5, K6, K8 with one line of 64 KiB ± 1 … 1 MiB at every scanner site", Workers: 6,
